@@ -1127,6 +1127,9 @@ class WcParse(Generic[AnyStr]):
 
             if c == '\\':
                 # Handle escapes
+                if end_range:
+                    # The range ends with an escape (two characters), so a hyphen right after it is still literal.
+                    escape_hyphen += 1
                 try:
                     value = self._references(i, True)
                 except DotException:
